@@ -460,7 +460,9 @@ impl Display for StandardLinearModel {
 /// * `value` - Coefficient value
 /// * `is_first` - Whether this is the first term in an expression
 pub fn format_var(name: &str, value: f64, is_first: bool) -> String {
-    let sign = if float_lt(value, 0.0) {
+    // the sign must be exact: a tolerance comparison drops the minus of small
+    // negative coefficients (-0.000001x would be rendered as 0.000001x)
+    let sign = if value < 0.0 {
         "- "
     } else if is_first {
         ""
